@@ -51,6 +51,7 @@ def work(case):
     out, fail, nontrivial = [], None, False
     published = []          # (object, text at publication)
     announced = {}          # run id -> number of local finishing announcements
+    pats = {(PL.phname(ph), PL.patname(p["name"])): p for ph, ps in cfg["phen"] for p in ps}
     for k, op in enumerate(ops):
         before = {(r.phenomenon_name, r.pattern.name, r.run_id): (r.block_index, hist_list(r.history()))
                   for r in dec.all_runs()}
@@ -68,6 +69,15 @@ def work(case):
             after[key] = (r.block_index, hist_list(r.history()))
 
         def bad(sig, what, detail=None):
+            # D17 (known finding): for a singleton pattern a message that finishes the local run under the peer's
+            # run id and also carries a (stale) update naming the local run's id re-creates that run
+            if op[0] == "remote" and sig in ("index-decreased", "remote-applied-not-ahead", "history-not-append"):
+                for (ph_, pat_, rid_) in before:
+                    p_ = pats.get((ph_, pat_))
+                    if p_ and p_["single"] and any(str(r["id"]) == rid_ for r in op[1]["upd"]) and \
+                            any(PL.phname(r["ph"]) == ph_ and PL.patname(r["pat"]) == pat_ and str(r["id"]) != rid_
+                                for kk in ("comp", "halt") for r in op[1][kk]):
+                        sig = "singleton-run-finished-under-peer-id-recreated-by-same-message"
             return dict(signature=sig, step=k, what=what, detail=detail)
         if fail is None and dup:
             fail = bad("duplicate-active-id", "two active runs of one pattern share an identifier")
